@@ -66,7 +66,9 @@ func (r *rewriter) isFieldSel(x *ast.SelectorExpr) bool {
 	return sel != nil && sel.Kind() == types.FieldVal
 }
 
-func sameExpr(a, b ast.Expr) bool { return types.ExprString(unparen(a)) == types.ExprString(unparen(b)) }
+func sameExpr(a, b ast.Expr) bool {
+	return types.ExprString(unparen(a)) == types.ExprString(unparen(b))
+}
 
 // substitute replaces every occurrence of target in e by repl and reports how many were replaced.
 func substitute(e ast.Expr, target ast.Expr, repl *ast.Ident) (ast.Expr, int) {
